@@ -216,7 +216,9 @@ func vC10Repeat[T vScalar]() {
 		}
 	})
 	vReach("C10.Repeat")
-	vAssert(!pan, "no-panic")
+	// column-major finding (C16): Repeat walks raw storage with row-major stride arithmetic
+	kfRepF := vCfgStr("layouts") == "F"
+	vAssertKF(!pan, "no-panic", "KF-C16-repeat", kfRepF)
 	if pan {
 		return
 	}
@@ -270,7 +272,11 @@ func vC10Repeat[T vScalar]() {
 	}
 	// known finding: denseRepeat forces stride 1 whenever the source or the result is a 2-D "vector" ((1,n) / (n,1))
 	kfVec := len(shape) == 2 && axis == 0 && shape[1] > 1 && (shape[0] == 1 || tot == 1)
-	vCheckAll(res, want, rshape, "place", "KF-C10-repeat-vec", kfVec)
+	if kfRepF {
+		vCheckAll(res, want, rshape, "place", "KF-C16-repeat", true)
+	} else {
+		vCheckAll(res, want, rshape, "place", "KF-C10-repeat-vec", kfVec)
+	}
 	vCheckAll(t, w, shape, "operand-unchanged", "", false)
 	// the caller's counts are not modified (C19 also checks this)
 	for i := range reps {
